@@ -1054,13 +1054,13 @@ def hci_seed_strategy(info: dict):
         parts.append(st.tuples(st.booleans(), _fields(cls.fields, 120)).map(
             lambda t, sub=sub, cls=cls: _hci_event_bytes(cls, b.hci.HCI_LE_META_EVENT, sub, t[1], subst if t[0] else None)))
     # vendor / unknown events, SCO, ISO, unknown packet types, commands (wrong direction)
+    vendor = st.tuples(st.sampled_from([0xFF, 0xFE, 0x00, 0x3E, 0x57, 0x3D, 0x0E, 0x0F]), st.binary(max_size=20)).map(
+        lambda t: bytes([4, t[0], len(t[1])]) + t[1])
+    sco = st.tuples(st.sampled_from([vh, vh, 0x0EFF, 0]), st.integers(0, 3), st.binary(max_size=30)).map(
+        lambda t: bytes([3]) + struct.pack('<H', t[0] | t[1] << 12) + bytes([len(t[2])]) + t[2])
+    iso = st.tuples(st.sampled_from([vh, vh, 0x0EFF, 0]), st.integers(0, 15), st.binary(max_size=40)).map(
+        lambda t: bytes([5]) + struct.pack('<HH', t[0] | t[1] << 12, len(t[2])) + t[2])
     other = st.one_of(
-        st.tuples(st.sampled_from([0xFF, 0xFE, 0x00, 0x3E, 0x57, 0x3D, 0x0E, 0x0F]), st.binary(max_size=20)).map(
-            lambda t: bytes([4, t[0], len(t[1])]) + t[1]),
-        st.tuples(st.sampled_from([vh, vh, 0x0EFF, 0]), st.integers(0, 3), st.binary(max_size=30)).map(
-            lambda t: bytes([3]) + struct.pack('<H', t[0] | t[1] << 12) + bytes([len(t[2])]) + t[2]),
-        st.tuples(st.sampled_from([vh, vh, 0x0EFF, 0]), st.integers(0, 15), st.binary(max_size=40)).map(
-            lambda t: bytes([5]) + struct.pack('<HH', t[0] | t[1] << 12, len(t[2])) + t[2]),
         st.tuples(st.sampled_from([0, 6, 7, 9, 0x80, 0xFF]), st.binary(max_size=12)).map(lambda t: bytes([t[0]]) + t[1]),
         st.tuples(st.sampled_from([0x0C03, 0x1009, 0x2001, 0xFC00]), st.binary(max_size=8)).map(
             lambda t: bytes([1]) + struct.pack('<H', t[0]) + bytes([len(t[1])]) + t[1]),
@@ -1072,7 +1072,8 @@ def hci_seed_strategy(info: dict):
         st.sampled_from([vh, 0x0EFF]).map(lambda h: bytes([4, 0x05, 4, 0x0C]) + struct.pack('<H', h) + bytes([0x13])),
     )
     captured = info.get('captured_hci') or [bytes([4, 0x13, 5, 1]) + struct.pack('<HH', vh, 1)]
-    return pick(st.one_of(*parts), st.one_of(*parts), other, st.sampled_from(captured))
+    return pick(st.one_of(*parts), st.one_of(*parts), st.one_of(*parts), other, other, vendor, sco, iso,
+                st.sampled_from(captured))
 
 
 def _hci_event_bytes(cls, code, sub, drawn, subst):
